@@ -33,13 +33,29 @@ def showObs : Fifo.Obs → String
     let ts := tags.map fun t => s!"{t.pos},{t.key},{t.val}"
     s!"win {vals.length} {w} {hashList vals} [{" ".intercalate ts}]"
 
+/-- `x` = an attempt to copy more samples into a write window than it has (`fill_from_slice` with a source
+longer than the window): the model has no such write (`.write` beyond the window is not an operation of
+the stream); the stream must refuse it and stay as it was. -/
+def parseOpX (bits : Nat) (s : String) : Option (Option Fifo.Op) :=
+  match toks s with
+  | ["x"] => some none
+  | _ => (parseOp bits s).map some
+
+def runX (s : Ring.State) : List (Option Fifo.Op) → List Fifo.Obs
+  | [] => []
+  | none :: ops => .refused :: runX s ops
+  | some op :: ops =>
+    match Ring.step s op with
+    | (some s', o) => o :: runX s' ops
+    | (none, o) => [o]
+
 def handle (args : String) : String :=
   match args.splitOn ";" with
   | hd :: ops =>
     match nats (toks hd) with
     | some [bits, cap] =>
-      match ops.mapM (parseOp bits) with
-      | some ops => " ; ".intercalate ((Ring.run (Ring.init cap) ops).map showObs)
+      match ops.mapM (parseOpX bits) with
+      | some ops => " ; ".intercalate ((runX (Ring.init cap) ops).map showObs)
       | none => "bad-op"
     | _ => "bad-op"
   | [] => "bad-op"
